@@ -828,10 +828,9 @@ func genC10ring(g *G) {
 		for k := -n - 2; k <= n+2; k++ {
 			ops = append(ops, fmt.Sprintf("at r1 r0 %d", k), fmt.Sprintf("peek r0 %d", k))
 		}
-		// far outside the cycle and at the ends of the int range.  math.MinInt64 itself is left out on purpose:
-		// At negates its argument, -MinInt64 overflows, and At/Peek then answer r / (r.Value, true) instead of
-		// nil / (zero, false) — reported as an implementation deviation, not generated here.
-		for _, k := range []int{3 * n, -3 * n, 3*n + 1, -3*n - 1, 1000000, -1000000, math.MaxInt64, -math.MaxInt64} {
+		// far outside the cycle and at the ends of the int range, math.MinInt64 included (finding F9, fixed in
+		// /repo 6530f72: At used to negate its argument, which overflows for MinInt64)
+		for _, k := range []int{3 * n, -3 * n, 3*n + 1, -3*n - 1, 1000000, -1000000, math.MaxInt64, -math.MaxInt64, math.MinInt64} {
 			ops = append(ops, fmt.Sprintf("at r1 r0 %d", k), fmt.Sprintf("peek r0 %d", k), "len r1")
 		}
 		for k := 0; k <= n+1; k++ {
